@@ -91,6 +91,17 @@ INVALID = [
     (532, None, "fn w(data: []i32)\n{\n\tvar c = data;\n}\n"),
     (533, None, "struct S\n{\n\ta: i32,\n}\nfn main()\n{\n\tvar x = S { a: 1 };\n\tvar y: S = x;\n}\n"),
     (533, None, "struct S\n{\n\ta: i32,\n}\nfn main()\n{\n\tvar x = S { a: 1 };\n\tvar y = S { a: 2 };\n\ty = x;\n}\n"),
+    # views whose elements or members are pointers: writing THROUGH the stored pointer changes what the caller's pointer
+    # points to (allowed: the caller wrote `&` when it stored the pointer), but RE-SEATING the stored pointer (`&x[0] = &q`)
+    # changes the caller's array or structure itself, which was passed without `&`: E530
+    (530, None, "fn f(x: []&i32, q: &i32)\n{\n\t&x[0] = &q;\n}\nfn main()\n{\n}\n"),
+    (530, None, "struct S\n{\n\tp: &i32,\n}\nfn f(s: S, q: &i32)\n{\n\t&s.p = &q;\n}\nfn main()\n{\n}\n"),
+    (530, None, "struct S\n{\n\tp: &i32,\n}\nfn f(x: []S, q: &i32)\n{\n\t&x[1].p = &q;\n}\nfn main()\n{\n}\n"),
+    (530, None, "struct S\n{\n\tv: i32,\n}\nfn f(x: []S)\n{\n\tx[0].v = 1;\n}\nfn main()\n{\n}\n"),
+    (530, None, "fn f(x: [][2]i32)\n{\n\tx[0][1] = 1;\n}\nfn main()\n{\n}\n"),
+    (0, None, "fn f(x: &[]&i32, q: &i32)\n{\n\t&x[0] = &q;\n}\nfn main()\n{\n}\n"),
+    (0, None, "struct S\n{\n\tp: &i32,\n}\nfn f(s: &S, q: &i32)\n{\n\t&s.p = &q;\n}\nfn main()\n{\n}\n"),
+    (0, None, "fn f(q: &i32)\n{\n\tvar a: i32 = 1;\n\tvar x: [2]&i32 = [&a, &a];\n\t&x[0] = &q;\n}\nfn main()\n{\n}\n"),
     (513, None, "fn w(p: &u8) -> u8\n{\n\treturn: p\n}\nfn main() -> u8\n{\n\tvar t: u8 = 10;\n\tvar r = w(t);\n\treturn: r\n}\n"),
     (513, None, "fn w(s: &[]i32)\n{\n\ts[0] = 1;\n}\nfn main()\n{\n\tvar a: [2]i32 = [1, 2];\n\tw(a);\n}\n"),
     (0, None, "fn w(p: &u8) -> u8\n{\n\treturn: p\n}\nfn main() -> u8\n{\n\tvar t: u8 = 10;\n\tvar r = w(&t);\n\treturn: r\n}\n"),
